@@ -1086,6 +1086,7 @@ func main() {
 	phase("timed-under-clock-delta", 2*time.Minute, func() { timedUnderDelta(env, rep) })
 	phase("callback-window", time.Minute, func() { callbackWindow(env, rep) })
 	phase("timed-arrival", time.Minute, func() { timedArrival(env, rep) })
+	phase("timed-out-then-put", time.Minute, func() { timedOutThenPut(env, rep) })
 	phase("known-findings", 30*time.Second, func() { knownFindings(rep) })
 	_ = sort.Ints
 	rep.Write(env.Out)
@@ -1618,6 +1619,76 @@ func fifoWake(env *vh.Env, rep *vh.Report) {
 				map[string]interface{}{"type": api.name, "consumers": k, "returned": got,
 					"how": "capacity 1, Failed callback sleeps 3 ms; k goroutines in Get(); hold the cond's mutex (reflection); park Put(777), Put(901), Put(902); release the mutex in starvation (FIFO) mode; collect the returns for 300 ms"})
 			return
+		}
+	}
+}
+
+// ---------------------------------------------------------------- a timed-out get leaves nothing behind
+
+// timedOutThenPut: n × GetTimeout on an empty queue (each times out), then Put(x): Size() = 1 a moment
+// later and Get / GetNoWait returns x.  (A timed get implemented with a helper goroutine blocked in Get()
+// would swallow x: the element is accepted and delivered to nobody.)
+func timedOutThenPut(env *vh.Env, rep *vh.Report) {
+	for _, dbl := range []bool{false, true} {
+		for _, n := range []int{1, 2, 4} {
+			for mode := 0; mode < 4; mode++ {
+				for _, blocking := range []bool{false, true} {
+					var getT func(int) interface{}
+					var get, getNW func() interface{}
+					var put func(interface{}) bool
+					var size func() int
+					name := qname(dbl)
+					if dbl {
+						d := queue.NewRequestDoubleQueue(4, 4)
+						getT, get, getNW, size = d.GetTimeout, d.Get, d.GetNoWait, d.Size
+						put = []func(interface{}) bool{d.Put1, d.PutForce1, d.Put2, d.PutForce2}[mode]
+					} else {
+						if mode > 1 {
+							continue
+						}
+						q := queue.NewRequestQueue(4)
+						getT, get, getNW, size = q.GetTimeout, q.Get, q.GetNoWait, q.Size
+						put = []func(interface{}) bool{q.Put, q.PutForce}[mode]
+					}
+					bad := ""
+					for i := 0; i < n && bad == ""; i++ {
+						var v interface{}
+						if o := vh.GuardTimeout(5*time.Second, func() { v = getT(2 + i) }); !o.OK() {
+							bad = "GetTimeout on an empty queue: " + o.String()
+						} else if v != nil {
+							bad = fmt.Sprintf("GetTimeout on an empty queue returned %v", v)
+						}
+					}
+					szv, got := -1, -1
+					if bad == "" {
+						put(4242)
+						time.Sleep(12 * time.Millisecond)
+						o := vh.GuardTimeout(2*time.Second, func() {
+							szv = size()
+							if blocking {
+								got = unelem(get())
+							} else {
+								got = unelem(getNW())
+							}
+						})
+						switch {
+						case o.Timeout:
+							bad = fmt.Sprintf("after %d timed-out GetTimeout calls and Put(4242): Size() = %d and the blocking Get() never returns — the element was delivered to nobody", n, szv)
+						case szv != 1 || got != 4242:
+							bad = fmt.Sprintf("after %d timed-out GetTimeout calls and Put(4242): Size() = %d, the get returned %d — the element vanished without any dequeue returning it", n, szv, got)
+						}
+					}
+					rep.Case(fmt.Sprintf("timed-out-then-put %s n=%d mode=%d blocking=%v", name, n, mode, blocking), true)
+					rep.Count("timed:timed-out-then-put")
+					if bad != "" {
+						rep.Fail("property", name+".GetTimeout:loses-later-element", name+": "+bad,
+							map[string]interface{}{"type": name, "timed_out_calls": n, "put_mode": mode, "size": szv, "got": got,
+								"ops": "t;…;p4242;s;" + map[bool]string{true: "g", false: "n"}[blocking],
+								"how": "n × GetTimeout(2..5 ms) on an empty queue; Put(4242); wait 12 ms; Size() must be 1 and Get()/GetNoWait() must return 4242"})
+						return
+					}
+				}
+			}
 		}
 	}
 }
